@@ -20,6 +20,7 @@ import (
 	"github.com/evanw/esbuild/internal/fs"
 	"github.com/evanw/esbuild/internal/helpers"
 	"github.com/evanw/esbuild/internal/logger"
+	"github.com/evanw/esbuild/internal/verifhook"
 	"github.com/evanw/esbuild/pkg/api"
 	"github.com/evanw/esbuild/pkg/cli"
 )
@@ -290,6 +291,7 @@ func (service *serviceType) handleIncomingPacket(bytes []byte) {
 				go func() {
 					defer service.keepAliveWaitGroup.Done()
 					defer build.disposeWaitGroup.Done()
+					verifhook.Yield("svc_rebuild")
 					result := ctx.Rebuild()
 					build.mutex.Lock()
 					build.withinRebuildCount--
@@ -475,6 +477,7 @@ func (service *serviceType) handleIncomingPacket(bytes []byte) {
 				service.keepAliveWaitGroup.Add(1)
 				go func() {
 					defer service.keepAliveWaitGroup.Done()
+					verifhook.Yield("svc_cancel")
 					ctx.Cancel()
 
 					// Block until all manual rebuilds that were active at the time the
